@@ -19,10 +19,9 @@ func MockCompilable(s *Schema) bool {
 		for _, f := range m.Fields {
 			handled := f.Kind == KString || f.Kind == KInt32 || f.Kind == KInt64 || f.Kind == KBool || f.Kind == KFloat || f.Kind == KDouble
 			switch {
-			case f.Kind == KTimestamp && f.Card == Singular && f.Oneof == "":
-				return false
 			case f.Kind == KTimestamp:
-				if f.Card == Map {
+				// a Timestamp is populated like any other message (Nanos is an int32): only lists are skipped
+				if f.Card != Repeated {
 					return false
 				}
 			case f.Card == Optional || f.Oneof != "":
@@ -128,7 +127,7 @@ func mockSanitize(m *Message) {
 		return k == KString || k == KInt32 || k == KInt64 || k == KBool || k == KFloat || k == KDouble
 	}
 	for _, f := range m.Fields {
-		if f.Kind == KTimestamp && (f.Card == Map || (f.Card == Singular && f.Oneof == "")) {
+		if f.Kind == KTimestamp && f.Card != Repeated {
 			f.Kind = KString
 		}
 		if (f.Card == Optional || f.Oneof != "") && (handled(f.Kind) || f.Kind == KMessage) {
